@@ -649,6 +649,115 @@ impl BuilderArea {
                     }
                 }
             }
+            ["taoiter", eref, off, ops @ ..] => {
+                // the result of `token_at_offset` used as the iterator it is: whatever adaptor a caller reaches for must
+                // agree with plain `next` stepping
+                let Some((id, t, e)) = get(self, eref) else { return Some("bad-op".into()) };
+                let NodeOrToken::Node(n) = e else { return Some("n/a".into()) };
+                let off: usize = off.parse().unwrap_or(0);
+                let resolved = self.red.resolved;
+                cx.count("op.taoiter");
+                let r = catch(|| {
+                    let mut it: TokenAtOffset<SyntaxToken<K>> = if resolved {
+                        n.resolved().token_at_offset(TextSize::from(off as u32)).map(|t| t.syntax().clone())
+                    } else {
+                        n.token_at_offset(TextSize::from(off as u32))
+                    };
+                    // reference: the items plain stepping yields
+                    let mut rem: Vec<SyntaxToken<K>> = vec![];
+                    {
+                        let mut c = it.clone();
+                        while let Some(x) = c.next() {
+                            rem.push(x);
+                            if rem.len() > 4 {
+                                break;
+                            }
+                        }
+                    }
+                    let mut out: Vec<(Option<Option<SyntaxToken<K>>>, String)> = vec![];
+                    let mut bad: Vec<String> = vec![];
+                    for op in ops {
+                        match *op {
+                            "next" => {
+                                let g = it.next();
+                                let w = if rem.is_empty() { None } else { Some(rem.remove(0)) };
+                                if g != w {
+                                    bad.push("next disagrees with the stepping of a clone".into());
+                                }
+                                out.push((Some(g), String::new()));
+                            }
+                            op if op.starts_with("nth") => {
+                                let k: usize = op[3..].parse().unwrap_or(0);
+                                let g = it.nth(k);
+                                let w = if k < rem.len() { let x = rem[k].clone(); rem.drain(..=k); Some(x) } else { rem.clear(); None };
+                                if g != w {
+                                    bad.push(format!("nth({}) is not the item {} further `next` calls reach", k, k + 1));
+                                }
+                                out.push((Some(g), String::new()));
+                            }
+                            "len" => {
+                                let l = it.len();
+                                if l != rem.len() || it.size_hint() != (l, Some(l)) {
+                                    bad.push(format!("len {} / size_hint {:?} with {} items left", l, it.size_hint(), rem.len()));
+                                }
+                                out.push((None, l.to_string()));
+                            }
+                            "last" => {
+                                let g = it.clone().last();
+                                if g != rem.last().cloned() {
+                                    bad.push("last() is not the last item stepping yields".into());
+                                }
+                                out.push((Some(g), String::new()));
+                                break;
+                            }
+                            "count" => {
+                                let c = it.clone().count();
+                                if c != rem.len() {
+                                    bad.push(format!("count() = {} with {} items left", c, rem.len()));
+                                }
+                                out.push((None, c.to_string()));
+                                break;
+                            }
+                            "left" => {
+                                let g = it.clone().left_biased();
+                                if g != rem.first().cloned() {
+                                    bad.push("left_biased is not the first item".into());
+                                }
+                                out.push((Some(g), String::new()));
+                                break;
+                            }
+                            "right" => {
+                                let g = it.clone().right_biased();
+                                if g != rem.last().cloned() {
+                                    bad.push("right_biased is not the last item".into());
+                                }
+                                out.push((Some(g), String::new()));
+                                break;
+                            }
+                            _ => out.push((None, "bad-op".into())),
+                        }
+                    }
+                    (out, bad)
+                });
+                match r {
+                    Err(_) => "panic".into(),
+                    Ok((out, bad)) => {
+                        for b in bad {
+                            cx.fail("C13", format!("token_at_offset({}) on e{} as an iterator: {}", off, id, b));
+                        }
+                        cx.nontrivial();
+                        let mut ss = vec![];
+                        for (el, s) in out {
+                            match el {
+                                Some(Some(tk)) => ss.push(self.show_el(t, &NodeOrToken::Token(tk), None, cx, "token_at_offset iterator")),
+                                Some(None) => ss.push("none".into()),
+                                None => ss.push(s),
+                            }
+                        }
+                        ss.join(" | ")
+                    }
+                }
+            }
             ["cover", eref, a, b] => {
                 let Some((id, t, e)) = get(self, eref) else { return Some("bad-op".into()) };
                 let NodeOrToken::Node(n) = e else { return Some("n/a".into()) };
@@ -757,7 +866,8 @@ impl BuilderArea {
                 });
                 match r {
                     Err(m) => {
-                        cx.fail("C02", format!("resolving the text of e{} panicked: {}", id, m));
+                        let prop = if matches!(e, NodeOrToken::Token(_)) { "C11" } else { "C02" };
+                        cx.fail(prop, format!("resolving the text of e{} panicked: {}", id, m));
                         "panic".into()
                     }
                     Ok((a, b)) => {
